@@ -45,7 +45,7 @@ def run(tier):
     c = Counter()
     dl = docrun.synthesized(sd + 71, 4 if tier == "quick" else 40, ncontracts=2, nblocks=5)
     samples = []
-    for opts in (["-greedy"], ["-greedy", "-storage"]) if tier == "quick" else (["-greedy"], ["-greedy", "-storage"], ["-greedy", "-size", "-partition"]):
+    for opts in (["-greedy"], ["-greedy", "-storage", "-push0"]) if tier == "quick" else (["-greedy"], ["-greedy", "-storage"], ["-greedy", "-push0"], ["-greedy", "-size", "-partition"]):
         first = docrun.run_docs(dl, opts + ["-log"])
         for (name, d), r in zip(dl, first):
             res = r["res"]
@@ -72,10 +72,30 @@ def run(tier):
             # (b) tampered logs
             all_ids = sorted({i for v in log.values() for i in v})
             inp = block_map(d)
-            n_t = 8 if tier == "quick" else 40
             tasks, kinds = [], []
-            for _ in range(n_t):
-                kind, tl = tamper(rng, log, all_ids or ["ADD"])
+            # at least one edit aimed at every block of the log (repeated blocks included), plus random ones
+            targets = [k for k in log if log[k]]
+            if tier == "quick":
+                targets = targets[:10] if len(targets) <= 10 else rng.sample(targets, 10)
+            edits = []
+            for k in targets:
+                seq = list(log[k])
+                tl = {a: list(b) for a, b in log.items()}
+                how = rng.choice(["swap-first-two", "delete", "duplicate", "substitute"])
+                if how == "swap-first-two" and len(seq) > 1:
+                    seq[0], seq[1] = seq[1], seq[0]
+                elif how == "delete":
+                    del seq[rng.randrange(len(seq))]
+                elif how == "duplicate":
+                    i = rng.randrange(len(seq)); seq.insert(i, seq[i])
+                else:
+                    seq[rng.randrange(len(seq))] = rng.choice(all_ids or ["ADD"])
+                if seq != log[k]:
+                    tl[k] = seq
+                    edits.append(("targeted-" + how, tl))
+            for _ in range(4 if tier == "quick" else 30):
+                edits.append(tamper(rng, log, all_ids or ["ADD"]))
+            for kind, tl in edits:
                 kinds.append(kind)
                 tasks.append({"kind": "cli", "files": {name: text, logname: json.dumps(tl)}, "args": [name] + opts + ["-optimize-from-log", logname], "timeout": 300})
             for kind, (t, tr, st) in zip(kinds, pool.run_tasks(tasks, timeout=300)):
